@@ -698,6 +698,9 @@ def generate(family, seed, count):
         return gen_crash_all(thorough=count > 5000)
     if family == "hostile":
         return gen_hostile_all(seed, count, full=count > 20000)
+    if family == "model":
+        import l3
+        return l3.scripts("thorough" if count > 5000 else "quick")
     rng = random.Random("%s-%d" % (family, seed))
     f = FAMILIES[family]
     return [f(rng, i) for i in range(count)]
